@@ -11,6 +11,58 @@ def units_simple(shards_q, shards_t=None, **kw):
 BOTH = ["chk", "rel"]
 
 PROPS = {
+    "C08": dict(
+        profiles=["chk"], level="model_checking", units=units_simple(16),
+        rule=("explicit-state search to fixpoint over real PageTableEntry values: state = raw u64, actions = set_addr/set_frame (45 aligned "
+              "addresses incl. every single address bit x ~58 flag sets incl. every single flag bit 0-11/52-63), set_flags, set_unused; after every "
+              "transition raw == addr|flags (hardware layout), addr()/flags()/frame()/is_unused() read back; PageTable: size/alignment, all 512 slots "
+              "written through each of 3 access paths and read back through 4 paths + raw little-endian bytes, new/zero/is_empty on all 4096 byte positions."),
+        assumptions=["flags compared on bits 0-11 and 52-63 (the quantified flag domain); bit 12 is an address bit for 4 KiB-aligned addresses (O2)"],
+    ),
+    "C12": dict(
+        profiles=BOTH, level="model_checking", units=units_simple(16),
+        rule=("placement: 23 named fields and all 256 vectors through Index/IndexMut (exact refusal set); all 65536 (a,b) pairs x 22 two-sided RangeBounds "
+              "forms + 256 x 7 one-sided forms, each via Index, IndexMut, slice, slice_mut (pointer offset 16*lower, length, exact panic set); encoding: "
+              "set_handler_addr for every canonical B64 address decoded with the SDM gate layout; option setters: explicit-state search to fixpoint "
+              "(512 gate states x 19 actions) by history re-execution, each setter changes only its field; new/default/reset/missing: all 256 gates; "
+              "load/load_unsafe: lidt operand observed through the trap-and-emulate CPU (when built)."),
+        assumptions=["gate layout table (arch.rs / c12::decode_gate) transcribed from SDM vol.3 fig 6-8 is the trusted base",
+                     "current code segment = CS of this process (0x33) for the native part"],
+    ),
+    "C13": dict(
+        profiles=BOTH, level="exploration", units=units_simple(16),
+        rule=("installation: set_general_handler! for all 32896 (lo<=hi) ranges on a fresh IDT, on a prefilled IDT and in exclusive-range form for every "
+              "pair with a boundary endpoint (all pairs in thorough), single-index and full-table forms: present set == range minus reserved vectors, "
+              "every other gate byte-identical, stubs pairwise distinct; entry: the address stored in each of the 256 installed gates is entered "
+              "with a hardware-format frame (RSP aligned, SS,RSP,RFLAGS,CS,RIP[,error code]) x 6 error-code values in a forked child: handler runs once, "
+              "index == vector, frame fields as pushed, error code iff the vector defines one, iretq resumes at the interrupted RIP/RSP with all "
+              "caller-saved registers intact; vectors 8/18 observed in grandchildren."),
+        assumptions=["native entry uses this process' CS/SS and RFLAGS (arbitrary frame contents are covered by the emulated iretq part when built)",
+                     "the harness' general handler re-aligns its stack (LLVM's diverging error-code stub calls it with RSP%16==8)"],
+    ),
+    "C14": dict(
+        profiles=BOTH, level="model_checking", units=units_simple(16),
+        rule=("DFS over append histories on real GlobalDescriptorTable<MAX> for MAX in {1,2,3,8,9}: every {user,system}-kind sequence up to the first "
+              "overflow beyond MAX, values = default per kind + non-default values (0, all-ones, 6 presets, DPL patterns, TSS descriptor) at one deviation "
+              "each (bound 3; 2 for MAX>=8 in quick); after every append entries()==reference Vec<u64>, selector==first_slot<<3|dpl, limit==8*len-1, "
+              "overflow panics leave the table unchanged, from_raw_entries reproduces; MAX=8192 all-user/all-system/alternating fills to overflow."),
+        assumptions=["64-bit descriptor values covered on a boundary alphabet"],
+    ),
+    "C15": dict(
+        profiles=["chk"], level="exploration", units=units_simple(1),
+        rule=("tss_segment_unchecked for every B64 pointer (every single bit, every all-but-one) decoded with the 16-byte system-descriptor layout; "
+              "tss_segment(&'static); 6 presets + 4 constructors decoded to kind/L/D/DPL/P; dpl() for 4 DPLs x 130 surrounding patterns x {user,system}; "
+              "TSS and DescriptorTablePointer layouts measured by pointer arithmetic and raw bytes."),
+        assumptions=["descriptor layout transcribed from SDM vol.3 fig 8-4 / 3-8 is the trusted base"],
+    ),
+    "C19": dict(
+        profiles=["chk"], level="exploration", units=units_simple(1),
+        rule=("finite and complete: every named flag of the 14 bitflags types (walked through bitflags::Flags::FLAGS) compared both ways with the "
+              "hand-transcribed manual table; 11 MSR numbers; page sizes; Pat::DEFAULT; MXCSR reset; all 256 u8 for ExceptionVector/PatMemoryType/"
+              "DebugAddressRegisterNumber; all 65536 u16 for PrivilegeLevel, SegmentSelector (new/index/rpl/set_rpl), Pcid, SelectorErrorCode; "
+              "Dr7Value: 4 registers x 4 conditions x 4 sizes x all 4096 flag subsets."),
+        assumptions=["arch.rs (manual transcription) is the trusted base"],
+    ),
     "C03": dict(
         profiles=BOTH, level="model_checking", units=units_simple(16),
         rule=("(a) every constructor (try_new/new/new_truncate/from_ptr, high-bit flips) over all of B64 (~700 values: every single bit, "
